@@ -353,11 +353,16 @@ impl<W: io::Write> Writer<W> {
 
     /// Write a given GFF record.
     pub fn write(&mut self, record: &Record) -> csv::Result<()> {
+        let delimiter = self.delimiter;
         let attributes = if !record.attributes.is_empty() {
             record
                 .attributes
-                .iter()
-                .map(|(a, b)| format!("{}{}{}", a, self.delimiter, b))
+                .iter_all()
+                .flat_map(|(a, values)| {
+                    values
+                        .iter()
+                        .map(move |b| format!("{}{}{}", a, delimiter, b))
+                })
                 .join(&self.terminator)
         } else {
             "".to_owned()
